@@ -1,0 +1,259 @@
+#![allow(dead_code)]
+/*
+    Verification hooks, compiled only with `--cfg walleye_verif`.
+
+    Nothing in here changes the behaviour of the engine unless a test harness
+    explicitly installs a virtual clock / output capture on the current thread,
+    or the environment variable WALLEYE_VERIF_TRACE names a file to which
+    process-level events are appended.
+*/
+use crate::board::{BoardState, PieceColor, PieceKind, Point, Square, BOARD_END, BOARD_START};
+use crate::draw_table::DrawTable;
+use std::cell::RefCell;
+use std::fs::{File, OpenOptions};
+use std::io::Write;
+use std::sync::atomic::{AtomicU64, Ordering};
+use std::sync::Mutex;
+
+pub struct VirtualClock {
+    pub queries: u64,   // how many times the clock has been consulted so far
+    pub expire_at: u64, // the query with this index (0 based) and all later ones answer "out of time"
+}
+
+#[derive(Clone, Debug)]
+pub struct LoggedEvent {
+    pub query_index: u64, // value of the clock query counter when the event happened
+    pub kind: &'static str, // "out" (a line given to send_to_gui) or "send" (a board handed to the channel)
+    pub text: String,
+}
+
+thread_local! {
+    static CLOCK: RefCell<Option<VirtualClock>> = RefCell::new(None);
+    static LOG: RefCell<Option<Vec<LoggedEvent>>> = RefCell::new(None);
+}
+
+/*
+    Install a virtual clock on this thread, every call of utils::out_of_time on this thread
+    is then answered from the counter instead of the wall clock
+*/
+pub fn install_clock(expire_at: u64) {
+    CLOCK.with(|c| {
+        *c.borrow_mut() = Some(VirtualClock {
+            queries: 0,
+            expire_at,
+        })
+    });
+}
+
+pub fn remove_clock() -> Option<u64> {
+    CLOCK.with(|c| c.borrow_mut().take().map(|v| v.queries))
+}
+
+pub fn clock_queries() -> u64 {
+    CLOCK.with(|c| c.borrow().as_ref().map(|v| v.queries).unwrap_or(0))
+}
+
+pub fn clock_query() -> Option<bool> {
+    CLOCK.with(|c| {
+        if let Some(v) = c.borrow_mut().as_mut() {
+            let idx = v.queries;
+            v.queries += 1;
+            Some(idx >= v.expire_at)
+        } else {
+            None
+        }
+    })
+}
+
+pub fn install_log() {
+    LOG.with(|l| *l.borrow_mut() = Some(Vec::new()));
+}
+
+pub fn take_log() -> Vec<LoggedEvent> {
+    LOG.with(|l| l.borrow_mut().take().unwrap_or_default())
+}
+
+fn log_event(kind: &'static str, text: String) -> bool {
+    LOG.with(|l| {
+        if let Some(v) = l.borrow_mut().as_mut() {
+            v.push(LoggedEvent {
+                query_index: clock_queries(),
+                kind,
+                text,
+            });
+            true
+        } else {
+            false
+        }
+    })
+}
+
+// returns true when the line was captured and must not go to stdout
+pub fn capture(message: &str) -> bool {
+    log_event("out", message.to_string())
+}
+
+/*
+    Process level event sink, one json object per line, ordered by a global sequence number
+*/
+static SEQ: AtomicU64 = AtomicU64::new(0);
+static SINK: Mutex<Option<File>> = Mutex::new(None);
+static SINK_INIT: std::sync::Once = std::sync::Once::new();
+
+fn with_sink<F: FnOnce(&mut File, u64)>(f: F) {
+    SINK_INIT.call_once(|| {
+        if let Ok(path) = std::env::var("WALLEYE_VERIF_TRACE") {
+            if let Ok(file) = OpenOptions::new().create(true).append(true).open(path) {
+                *SINK.lock().unwrap() = Some(file);
+            }
+        }
+    });
+    if let Ok(mut guard) = SINK.lock() {
+        if let Some(file) = guard.as_mut() {
+            // the sequence number is taken under the same lock the line is written under
+            let seq = SEQ.fetch_add(1, Ordering::SeqCst);
+            f(file, seq);
+        }
+    }
+}
+
+fn piece_code(sq: Square) -> u32 {
+    match sq {
+        Square::Full(p) => {
+            let k = match p.kind {
+                PieceKind::Pawn => 1,
+                PieceKind::Knight => 2,
+                PieceKind::Bishop => 3,
+                PieceKind::Rook => 4,
+                PieceKind::Queen => 5,
+                PieceKind::King => 6,
+            };
+            if p.color == PieceColor::White {
+                k
+            } else {
+                k + 6
+            }
+        }
+        _ => 0,
+    }
+}
+
+// square numbering used by the specification: 1..64, a1 = 1, h1 = 8, a8 = 57
+pub fn square_number(p: Point) -> u32 {
+    let in_range = |x: usize| (BOARD_START..BOARD_END).contains(&x);
+    if !in_range(p.0) || !in_range(p.1) {
+        return 0;
+    }
+    (8 * (9 - p.0) + (p.1 - BOARD_START) + 1) as u32
+}
+
+pub fn board_json(b: &BoardState) -> String {
+    let mut ranks = Vec::new();
+    for rank in 1..=8usize {
+        let row = 10 - rank;
+        let mut v: u64 = 0;
+        let mut mul: u64 = 1;
+        for col in BOARD_START..BOARD_END {
+            v += mul * piece_code(b.board[row][col]) as u64;
+            mul *= 13;
+        }
+        ranks.push(v.to_string());
+    }
+    let cr = (b.white_king_side_castle as u32)
+        + 2 * (b.white_queen_side_castle as u32)
+        + 4 * (b.black_king_side_castle as u32)
+        + 8 * (b.black_queen_side_castle as u32);
+    let (from, to) = match b.last_move {
+        Some((f, t)) => (square_number(f), square_number(t)),
+        None => (0, 0),
+    };
+    let promo = match b.pawn_promotion {
+        Some(p) => piece_code(Square::Full(p)),
+        None => 0,
+    };
+    format!(
+        "{{\"r\":[{}],\"stm\":{},\"cr\":{},\"ep\":{},\"wk\":{},\"bk\":{},\"d\":[{},{},{}],\"key\":\"{:016x}\"}}",
+        ranks.join(","),
+        if b.to_move == PieceColor::White { 0 } else { 1 },
+        cr,
+        b.pawn_double_move.map(square_number).unwrap_or(0),
+        square_number(b.white_king_location),
+        square_number(b.black_king_location),
+        from,
+        to,
+        promo,
+        b.zobrist_key
+    )
+}
+
+pub fn table_json(t: &DrawTable) -> String {
+    let mut entries: Vec<(u64, u8)> = t.table.iter().map(|(k, v)| (*k, *v)).collect();
+    entries.sort_unstable();
+    let parts: Vec<String> = entries
+        .iter()
+        .map(|(k, v)| format!("[\"{:016x}\",{}]", k, v))
+        .collect();
+    format!("[{}]", parts.join(","))
+}
+
+pub fn event_position(board: &BoardState, draw_table: &DrawTable) {
+    with_sink(|f, seq| {
+        let _ = writeln!(
+            f,
+            "{{\"ev\":\"pos_done\",\"seq\":{},\"board\":{},\"table\":{}}}",
+            seq,
+            board_json(board),
+            table_json(draw_table)
+        );
+    });
+}
+
+pub fn event_go(board: &BoardState, slice_ms: u128) {
+    with_sink(|f, seq| {
+        let _ = writeln!(
+            f,
+            "{{\"ev\":\"go_start\",\"seq\":{},\"slice\":\"{}\",\"board\":{}}}",
+            seq,
+            slice_ms,
+            board_json(board)
+        );
+    });
+}
+
+// called by the search thread just before a board is handed to the channel
+pub fn event_send(board: &BoardState) {
+    log_event("send", board_json(board));
+    with_sink(|f, seq| {
+        let _ = writeln!(
+            f,
+            "{{\"ev\":\"srch_send\",\"seq\":{},\"board\":{}}}",
+            seq,
+            board_json(board)
+        );
+    });
+}
+
+// called by the io thread after try_recv returned a board
+pub fn event_recv(board: &BoardState) {
+    with_sink(|f, seq| {
+        let _ = writeln!(
+            f,
+            "{{\"ev\":\"io_recv\",\"seq\":{},\"board\":{}}}",
+            seq,
+            board_json(board)
+        );
+    });
+}
+
+// called by the io thread once the polling loop has been left
+pub fn event_exit(board: &BoardState, expired: bool) {
+    with_sink(|f, seq| {
+        let _ = writeln!(
+            f,
+            "{{\"ev\":\"io_exit\",\"seq\":{},\"expired\":{},\"board\":{}}}",
+            seq,
+            expired,
+            board_json(board)
+        );
+    });
+}
